@@ -340,6 +340,12 @@ impl Walker {
                 fd.public_dependency.push(0);
             }
         }
+        // now and then a big schema file: an option string that makes the encoded descriptor larger than 64 KiB
+        // (and any default-sized frame or buffer)
+        if spec.name % 16 == 13 {
+            fd.options = Some(prost_types::FileOptions { java_package: Some("com.example.".to_string() + &"x".repeat(70_000)), ..Default::default() });
+            self.synthetic = true;
+        }
         self.prev_file = fd.name.clone().unwrap_or_default();
         for (i, m) in spec.m.iter().enumerate() {
             let m = self.message(&scope, m, i, 1);
